@@ -44,7 +44,8 @@ CHECKS = {
          "Coq proof + differential correspondence", "7 C06"),
  "C08": ("Theorems: for every event history the sequence state = seq_of(#matching ACKs since last close) with seq_of = 0,1,2,3,1,2,3..; "
          "only a matching ACK or close changes it; the receiver's ACK branch is that step; every send writes a well-formed frame with "
-         "the current number and valid header checksum. Tie: histories through the real ZbossNcpProtocol under a virtual-time loop "
+         "the current number and valid header checksum; the send scheduler of C07 keeps the same numbering (its number follows the "
+         "history by the numbering model's step, every frame it writes carries the current number). Tie: histories through the real ZbossNcpProtocol under a virtual-time loop "
          "(all histories to depth 4/5 + random), independent reference rule as monitor.",
          TB + "asyncio/async_timeout under a virtual clock; sends issued one at a time (concurrency is C07).",
          "Coq proof (induction over histories) + differential correspondence", "7 C08"),
@@ -66,7 +67,8 @@ CHECKS = {
          "invented; complete = consumed everything); a response with non-zero status cut at ANY point after the status is returned, never "
          "rejected; with status zero / no status / not a response, a cut inside or right before a required field is rejected; a complete "
          "command followed by surplus bytes is rejected; all response schemas start with TSN,StatusCat,StatusCode (kernel-checked on the "
-         "regenerated table). Tie: every response class x EVERY truncation point x status zero/non-zero x surplus suffixes.",
+         "regenerated table); the same about from_frame as a whole for every response class of the tree (is-a-response = control "
+         "type, no status parsed yet), indications never get the failure-status benefit. Tie: every response class x EVERY truncation point x status zero/non-zero x surplus suffixes.",
          TB + "zigpy leaf deserialisers raise ValueError on short data (tested in C16).",
          "Coq proof + differential correspondence at every truncation point", "7 C15"),
  "C16": ("Theorems by structural induction over a universe of wire-type descriptors (ints, fixed bytes, length-prefixed bytes and lists, "
@@ -115,7 +117,8 @@ CHECKS = {
          "history (any number of concurrent senders; matching/stale/duplicate ACKs, silence, cancellation of the sender in flight or of "
          "queued ones, incoming data, close): a data frame is written only when none is in flight and a frame in flight ends only by its "
          "ACK, expiry or cancellation (stop-and-wait); callers are served in call order, each once (FIFO); a queued caller never waits "
-         "while the link is free. Tie: real uart.send under a virtual-time loop: all histories to depth 4/5 over a 9-letter alphabet + "
+         "while the link is free; in every reachable state an ACK carrying the current number ends the wait in progress; a wait lasts "
+         "exactly ACK_TIMEOUT and expires at its deadline, not before. Tie: real uart.send under a virtual-time loop: all histories to depth 4/5 over a 9-letter alphabet + "
          "random histories with up to 4 senders; independent trace monitor with virtual write times.",
          TB + "PARTIAL w.r.t. the runtime: events are injected at quiescent points of the asyncio loop only; asyncio.Lock FIFO hand-over, "
          "Event and async_timeout are modelled by the macro-step semantics (tested, not verified).",
@@ -151,7 +154,9 @@ CHECKS = {
          "Coq proof (trace invariant + state invariant) + differential correspondence", "7 C14"),
  "C20": ("Theorems: after close() / loss the link is absent and stays absent; a request issued then is refused in the same step; the "
          "application is told about a loss exactly when a loss happens while attached and no reset is in progress (count increases by "
-         "exactly one then, by zero for every other event); close detaches the app; no waiter survives. TERMINATION (Api/ApiLive.v): "
+         "exactly one then, by zero for every other event); the reset flag IS the history (raised by reset begin, lowered by reset end, "
+         "touched by nothing else), so a loss between the begin and the end of a reset is never reported and one after it is; close "
+         "detaches the app; no waiter survives. TERMINATION (Api/ApiLive.v): "
          "for every well-formed history, after close (no reset in progress) every request in whatever phase has ended once the ACK wait "
          "has passed, whatever events follow; after a loss every request has ended once the ACK wait plus the longest response timeout "
          "has passed; the scheduler never runs out of fuel. Tie: scenario campaign + close/loss at every quiescent point + the real "
